@@ -13,7 +13,7 @@ import (
 
 var errnos = map[string]syscall.Errno{
 	"EIO": syscall.EIO, "EACCES": syscall.EACCES, "ENOENT": syscall.ENOENT, "ENOSPC": syscall.ENOSPC,
-	"EEXIST": syscall.EEXIST, "ENOTDIR": syscall.ENOTDIR, "EMFILE": syscall.EMFILE, "EINTR": syscall.EINTR,
+	"EEXIST": syscall.EEXIST, "ENOTDIR": syscall.ENOTDIR, "ENAMETOOLONG": syscall.ENAMETOOLONG, "ELOOP": syscall.ELOOP, "EMFILE": syscall.EMFILE, "EINTR": syscall.EINTR,
 }
 
 func errnoName(e syscall.Errno) string {
